@@ -233,6 +233,12 @@ class ListGrader(AbstractGrader):
             self.validate_grouping()
         else:
             self.grouping = None
+            # Without a grouping, every subgrader receives a single input,
+            # which a ListGrader cannot grade
+            subgraders = (self.config['subgraders'] if self.subgrader_list
+                          else [self.config['subgraders']])
+            if any(isinstance(subgrader, ListGrader) for subgrader in subgraders):
+                raise ConfigError("A ListGrader subgrader can only be used with a grouping")
 
     def schema_answers(self, answers_tuple):
         """
